@@ -6,7 +6,8 @@
    vocabulary (abs, lockstep, reachable, cls_ok, ops_ok) Spec/CIRel.v.  `str_instance_eq_ok` / `str_instance_lower_idem` show that the
    extracted instance (Python str with the ASCII case mapping) meets both hypotheses. *)
 From Pybtex Require Import Base.Prelude Base.PyChar Base.PyStr Model.CIDict Model.CIDictStr
-  Spec.CIMap Spec.CIRel Proofs.CIDict Proofs.CIDictFindings.
+  Spec.CIMap Spec.CIRel Proofs.CIDict Proofs.CIDictFindings Proofs.CISet.
+Require Import Permutation.
 
 (* the hypotheses of the theorems below hold for the instance that is extracted and compared with pybtex *)
 Theorem str_instance_eq_ok : forall a b : str, reflect (a = b) (str_eqb a b).
@@ -185,7 +186,59 @@ Theorem default_get_setdefault_no_insert : forall (K V : Type) (keqb : K -> K ->
 Proof. exact default_get_setdefault_no_insert_r. Qed.
 Print Assumptions default_get_setdefault_no_insert.
 
+(* ---- CaseInsensitiveSet ---- *)
+
+(* invariant: in every reachable set, _set is the key set of _keys, without repetition, and every
+   remembered spelling lower-cases to its key *)
+Theorem set_lockstep_inv : forall (K : Type) (keqb : K -> K -> bool) (lower : K -> K),
+  (forall a b : K, reflect (a = b) (keqb a b)) ->
+  (forall k : K, lower (lower k) = lower k) ->
+  forall s : cis K, set_reachable K keqb lower s -> set_inv K lower s.
+Proof. exact set_reachable_inv. Qed.
+Print Assumptions set_lockstep_inv.
+
+(* refinement of every history (add discard remove contains get_canonical_key lower clear |= -= pop) from
+   every constructor argument: the results are those of the reference map "lower-cased key -> last written
+   spelling", the final _keys is the reference map's final state, and the model history is impossible
+   (a pop choice that is not a member) exactly when the reference one is *)
+Theorem set_refines : forall (K : Type) (keqb : K -> K -> bool) (lower : K -> K) (ksort : list K -> list K),
+  (forall a b : K, reflect (a = b) (keqb a b)) ->
+  (forall k : K, lower (lower k) = lower k) ->
+  forall (l probes : list K) (ops : list (sop K)),
+  match sspec_run K keqb lower (fold_left (ss_add K keqb lower) l []) ops with
+  | Some (xs, mf) =>
+    exists rs sf, srun K keqb lower ksort probes (cs_init K keqb lower l) ops = Some rs /\ map fst rs = xs /\
+                  srun_state K keqb lower (cs_init K keqb lower l) ops = Some sf /\ s_keys K sf = mf
+  | None => srun K keqb lower ksort probes (cs_init K keqb lower l) ops = None
+  end.
+Proof. exact Proofs.CISet.set_refines. Qed.
+Print Assumptions set_refines.
+
+(* length, containment, iteration and the remembered spellings of a reachable set agree: len = number of
+   keys; iteration = the keys (as a set), pairwise distinct, = the lower-cased remembered spellings;
+   `k in s` iff get_canonical_key(k) succeeds, and then it returns a case variant of k; both ignore case *)
+Theorem set_len_iter_contains_agree : forall (K : Type) (keqb : K -> K -> bool) (lower : K -> K),
+  (forall a b : K, reflect (a = b) (keqb a b)) ->
+  (forall k : K, lower (lower k) = lower k) ->
+  forall s : cis K, set_reachable K keqb lower s ->
+  cs_len K s = length (s_keys K s) /\ Permutation (cs_iter K s) (map fst (s_keys K s)) /\ NoDup (cs_iter K s) /\
+  Permutation (map lower (map snd (s_keys K s))) (cs_iter K s) /\
+  (forall k, cs_contains K keqb lower s k = ss_has K keqb lower (s_keys K s) k) /\
+  (forall k, cs_canonical K keqb lower s k = match ss_find K keqb (lower k) (s_keys K s) with Some sp => EOk sp | None => EExn KeyError end) /\
+  (forall k, cs_contains K keqb lower s k = true <-> exists sp, cs_canonical K keqb lower s k = EOk sp /\ lower sp = lower k) /\
+  (forall k1 k2, lower k1 = lower k2 -> cs_contains K keqb lower s k1 = cs_contains K keqb lower s k2 /\
+                                        cs_canonical K keqb lower s k1 = cs_canonical K keqb lower s k2).
+Proof. exact set_observe_agree_r. Qed.
+Print Assumptions set_len_iter_contains_agree.
+
 (* ---- non-vacuity ---- *)
+Example ex_set :
+  let s0 := cs_init str str_eqb lower [s2l "Aaa"; s2l "Bbb"] in
+  let ops := [SAdd (s2l "AAA"); SRemove (s2l "bbb"); SIor [s2l "c"; s2l "C"]; SPop (s2l "aaa")] in
+  option_map (fun s => (s_set str s, s_keys str s)) (srun_state str str_eqb lower s0 ops) = Some ([s2l "c"], [(s2l "c", s2l "C")]) /\
+  option_map fst (sspec_run str str_eqb lower (s_keys str s0) ops) = Some [EOk SRNone; EOk SRNone; EOk SRNone; EOk (SRKey (s2l "aaa"))].
+Proof. vm_compute. auto. Qed.
+
 (* a reachable ordered container after delete-then-reinsert in another case and an overwrite after lower() *)
 Definition ex_ops : list (op str Z) :=
   [ODel (s2l "DOS"); OSet (s2l "dos") 5%Z; OLower; OSet (s2l "UNO") 7%Z; OSetdefault (s2l "Tres") 3%Z].
